@@ -1,7 +1,11 @@
 """Instrumented tween factories, view derivers and predicates for C18 (importable dotted names)."""
 LOG = []
-N_TWEENS = 6
-PREFIX = 'harness.c18.tw.t'
+# attribute names of the tween factories; two of them CONTAIN a reserved tween name as a substring
+# ('SUBDOMAIN' has 'MAIN', 'INGRESSION' has 'INGRESS'): lexical near-misses of the sentinels
+ATTRS = ['t0', 't1', 't2', 't3', 't4', 't5', 'SUBDOMAIN_t6', 'INGRESSION_t7']
+N_TWEENS = len(ATTRS)
+MODULE = 'harness.c18.tw.'
+NAMES = [MODULE + a for a in ATTRS]
 
 
 def _mk(name, ident=None):
@@ -13,18 +17,18 @@ def _mk(name, ident=None):
             finally:
                 LOG.append([1, name])
         return tween
-    factory._c18_id = int(name[len(PREFIX):]) + 1 if ident is None else ident
+    factory._c18_id = NAMES.index(name) + 1 if ident is None else ident
     return factory
 
 
 def reset():
-    for i in range(N_TWEENS):
-        globals()['t%d' % i] = _mk('%s%d' % (PREFIX, i))
+    for a, n in zip(ATTRS, NAMES):
+        globals()[a] = _mk(n)
 
 
 def rebind(name, ident):
     """the dotted name now resolves to a (new) factory object carrying this id"""
-    globals()[name[len('harness.c18.tw.'):]] = _mk(name, ident)
+    globals()[name[len(MODULE):]] = _mk(name, ident)
 
 
 reset()
